@@ -858,6 +858,18 @@ def mutate_builder(b, rng):
         return "noop"
 
 
+class _HeldData:
+    """a caller who took `data = builder.data` once and from then on edits and inspects the document only through that
+    reference (the add_* calls and resolve() go to the Builder itself)"""
+
+    def __init__(self, b):
+        self._b = b
+        self.data = b.data
+
+    def __getattr__(self, k):
+        return getattr(self._b, k)
+
+
 def check_history(ctx, case_seed, model_reqs):
     rng = random.Random(case_seed)
     m = G.gen_model(rng, max_demes=4)
@@ -870,6 +882,10 @@ def check_history(ctx, case_seed, model_reqs):
     except Exception:  # noqa: BLE001
         b = demes.Builder.fromdict(doc)
         via_api = False
+    held = case_seed % 2 == 1
+    if held:
+        # the caller keeps ONE reference to the Builder's data (taken here) and never reads the attribute again
+        real_b, b = b, _HeldData(b)
     n = rng.randint(2, 6)
     steps = ["resolve"] + [rng.choice(["resolve", "mutate", "mutate"]) for _ in range(n - 2)] + ["resolve"]
     trace, graphs = [], []
@@ -887,7 +903,7 @@ def check_history(ctx, case_seed, model_reqs):
             before = snapshot(b.data)
             o = outcome(b.resolve)
             after = snapshot(b.data)
-            case = {"kind": "history", "case_seed": case_seed, "steps": list(trace), "via_builder_api": via_api,
+            case = {"kind": "history", "case_seed": case_seed, "steps": list(trace), "via_builder_api": via_api, "data_reference_held_by_caller": held,
                     "data_now": showdoc(b.data), "pickle": pickled(b.data)}
             rp = f"cd /verif/harness && /venv/bin/python -c \"import props.c18 as m; m.replay_history({case_seed})\""
             if before != after or id(b.data) != data_id:
